@@ -420,7 +420,7 @@ def main(mod, argv=None):
         if args.replay:
             limit_memory()
             return replay(mod, ctx, args.replay)
-        if args.run_many:
+        if args.run_many is not None:
             limit_memory()
             return run_many(mod, ctx, args.run_many)
         return check(mod, ctx, args)
@@ -448,6 +448,8 @@ def replay(mod, ctx, path):
 def run_many(mod, ctx, spec):
     keys = []
     for part in spec.split(","):
+        if not part:
+            continue  # an empty list of runs is an empty job, never "run the whole check"
         b, i = part.rsplit(":", 1)
         keys.append((b, int(i)))
     if hasattr(mod, "prepare_for"):
